@@ -1,7 +1,299 @@
-"""C13 layers for .itp / .map / .mapping — filled below."""
-def run_layers(ctx):
-    pass
+"""
+C13 layers for .itp (read_itp) and .map (read_backmapping_file) files.
+Same scheme as the .ff layers: chunks carry their text and their declared content.
+"""
+import itertools
+
+from mc import common
+from mc.common import Acc
+from props import c13
+
+
+# ----------------------------------------------------------------------------- ITP
+
+def itp_rich(i):
+    name = 'IA%d' % i
+    lines = [
+        '[ moleculetype ]', '%s 3' % name,
+        '[ atoms ]',
+        '1 P1 1 %s BB 1' % name,
+        '2 C1 1 %s SC1 2 0.5' % name,
+        '3 C2 2 %s SC2 3 -1.0 36.0' % name,
+        '[ bonds ]',
+        '1 2 1 0.25 1000',
+        '#ifdef FLEX',
+        '2 3 1 0.3 500',
+        '#else',
+        '[ constraints ]',
+        '2 3 1 0.3',
+        '#endif',
+        '[ angles ]',
+        '1 2 3 2 120 50 ; comment',
+        '[ exclusions ]',
+        '1 2 3',
+        '[ virtual_sitesn ]',
+        '3 1 1 2',
+        '#ifndef NOPOSRES',
+        '[ position_restraints ]',
+        '1 1 1000 1000 1000',
+        '#endif',
+        '#define SOMETHING 1',
+    ]
+    nodes = [
+        [0, {'index': 1, 'atomname': 'BB', 'atype': 'P1', 'resname': name, 'resid': 1, 'charge_group': 1}],
+        [1, {'index': 2, 'atomname': 'SC1', 'atype': 'C1', 'resname': name, 'resid': 1, 'charge_group': 2, 'charge': 0.5}],
+        [2, {'index': 3, 'atomname': 'SC2', 'atype': 'C2', 'resname': name, 'resid': 2, 'charge_group': 3, 'charge': -1.0, 'mass': 36.0}],
+    ]
+    declared = {
+        'name': name, 'nrexcl': 3, 'nodes': nodes,
+        'interactions': {
+            'bonds': [[[0, 1], ['1', '0.25', '1000'], {}], [[1, 2], ['1', '0.3', '500'], {'ifdef': 'FLEX'}]],
+            'constraints': [[[1, 2], ['1', '0.3'], {'ifndef': 'FLEX'}]],
+            'angles': [[[0, 1, 2], ['2', '120', '50'], {}]],
+            'exclusions': [[[0, 1, 2], [], {}]],
+            'virtual_sitesn': [[[2, 0, 1], ['1'], {}]],
+            'position_restraints': [[[0], ['1', '1000', '1000', '1000'], {'ifndef': 'NOPOSRES'}]],
+        },
+    }
+    return lines, declared
+
+
+def itp_two(i):
+    name = 'IB%d' % i
+    lines = ['[ moleculetype ]', '%s 1' % name, '[ atoms ]',
+             '1 Q1 1 %s NA 1 1.0 23.0' % name, '2 Q2 1 %s CL 2 -1.0 35.0' % name,
+             '[ pairs ]', '1 2 1', '[ dihedral_restraints ]']
+    declared = {'name': name, 'nrexcl': 1,
+                'nodes': [[0, {'index': 1, 'atomname': 'NA', 'atype': 'Q1', 'resname': name, 'resid': 1, 'charge_group': 1, 'charge': 1.0, 'mass': 23.0}],
+                          [1, {'index': 2, 'atomname': 'CL', 'atype': 'Q2', 'resname': name, 'resid': 1, 'charge_group': 2, 'charge': -1.0, 'mass': 35.0}]],
+                'interactions': {'pairs': [[[0, 1], ['1'], {}]]}}
+    return lines, declared
+
+
+def itp_one(i):
+    name = 'IC%d' % i
+    lines = ['[ moleculetype ]', '%s 0' % name, '[ atoms ]', '1 W 1 %s W 1' % name]
+    declared = {'name': name, 'nrexcl': 0,
+                'nodes': [[0, {'index': 1, 'atomname': 'W', 'atype': 'W', 'resname': name, 'resid': 1, 'charge_group': 1}]],
+                'interactions': {}}
+    return lines, declared
+
+
+ITP_CHUNKS = {'rich': itp_rich, 'two': itp_two, 'one': itp_one}
+
+
+def itp_file(seq):
+    lines, declared = ['; header comment', ''], []
+    for i, kind in enumerate(seq):
+        chunk, decl = ITP_CHUNKS[kind](i)
+        lines.extend(chunk)
+        declared.append(decl)
+    return lines, declared
+
+
+def load_itp(lines):
+    from vermouth.forcefield import ForceField
+    from vermouth.gmx.itp_read import read_itp
+    ff = ForceField(name='verif')
+    read_itp(lines, ff)
+    out = []
+    for block in ff.blocks.values():
+        out.append({'name': block.name, 'nrexcl': block.nrexcl,
+                    'nodes': [[k, c13.cv(dict(a))] for k, a in block.nodes(data=True)],
+                    'interactions': c13.canon_interactions(block.interactions)})
+    return out
+
+
+def check_itp(seq, acc, sample=False):
+    lines, declared = itp_file(seq)
+    case = {'layer': 'itp', 'chunks': list(seq)}
+    try:
+        got = load_itp(lines)
+    except Exception as err:   # pylint: disable=broad-except
+        acc.case(outcome='err')
+        acc.violation('itp:wellformed-rejected', 'well-formed itp rejected: %r' % (err,), case)
+        return
+    acc.case(nontrivial=len(seq) >= 2, outcome=('itp', [b['name'] for b in got]), sample=dict(case, file=lines) if sample else None)
+    if [b['name'] for b in got] != [b['name'] for b in declared]:
+        acc.violation('itp:members', 'moleculetypes loaded %r, declared %r' % ([b['name'] for b in got], [b['name'] for b in declared]), case)
+        return
+    diff = c13.first_difference(got, declared)
+    if diff:
+        acc.violation('itp:content', 'loaded moleculetype differs from the declaration at %s' % diff, case)
+
+
+def itp_faults(lines):
+    section = None
+    natoms_of = {'bonds': 2, 'angles': 3, 'constraints': 2, 'pairs': 2, 'position_restraints': 1}
+    for idx, line in enumerate(lines):
+        stripped = line.split(';')[0].strip()
+        if not stripped:
+            continue
+        if stripped.startswith('['):
+            section = stripped.strip('[ ]')
+            yield 'unknown-section', idx, lines[:idx] + ['[ nosuchsection ]', 'foo bar'] + lines[idx:]
+            continue
+        if stripped.startswith('#'):
+            if stripped.startswith(('#ifdef', '#ifndef')):
+                yield 'unbalanced-conditional(nested)', idx, lines[:idx + 1] + ['#ifdef INNER'] + lines[idx + 1:]
+            if stripped == '#endif':
+                yield 'unbalanced-conditional(missing-endif)', idx, lines[:idx] + lines[idx + 1:]
+                yield 'unbalanced-conditional(extra-endif)', idx, lines[:idx + 1] + ['#endif'] + lines[idx + 1:]
+            continue
+        if section == 'atoms':
+            yield 'duplicate-block-atom', idx, lines[:idx + 1] + [line] + lines[idx + 1:]
+        if section in natoms_of or section in ('exclusions', 'virtual_sitesn'):
+            tokens = stripped.split()
+            positions = range(natoms_of[section]) if section in natoms_of else ([0, 2] if section == 'virtual_sitesn' else range(len(tokens)))
+            for pos in positions:
+                for bad in ('0', '9', 'ZZ'):
+                    new = list(tokens)
+                    new[pos] = bad
+                    yield 'undefined-block-atom(%s)' % bad, idx, lines[:idx] + [' '.join(new)] + lines[idx + 1:]
+            if section in natoms_of and natoms_of[section] >= 2:
+                yield 'wrong-atom-count', idx, lines[:idx] + [tokens[0]] + lines[idx + 1:]
+
+
+def check_itp_faults(seq, acc):
+    lines, _ = itp_file(seq)
+    for kind, idx, mutated in itp_faults(lines):
+        case = {'layer': 'itp-fault', 'chunks': list(seq), 'fault': kind, 'line': idx}
+        try:
+            load_itp(mutated)
+            outcome = 'loaded'
+        except Exception:   # pylint: disable=broad-except
+            outcome = 'rejected'
+        acc.case(nontrivial=True, outcome=('ifault', kind, outcome),
+                 sample=dict(case, mutated_line=mutated[idx]) if acc.states % 97 == 0 else None)
+        if outcome == 'loaded':
+            acc.violation('itp-fault-accepted:%s' % kind, 'malformed itp loaded without error: %s at line %d (%r)' % (
+                kind, idx + 1, mutated[idx:idx + 2]), case)
+
+
+# ----------------------------------------------------------------------------- .map
+
+def map_forcefields():
+    from vermouth.forcefield import ForceField
+    from vermouth.molecule import Block
+
+    def make(name, blocks):
+        ff = ForceField(name=name)
+        for bname, atoms in blocks.items():
+            block = Block(force_field=ff)
+            block.name = bname
+            for atom in atoms:
+                block.add_atom({'atomname': atom, 'resname': bname, 'resid': 1})
+            ff.blocks[bname] = block
+        return ff
+    return {'fa': make('fa', {'X1': ['A', 'B', 'C', 'D'], 'X2': ['E', 'F'], 'X3': ['G']}),
+            'fb': make('fb', {'X1': ['P', 'Q'], 'X2': ['R'], 'X3': ['S']}),
+            'fc': make('fc', {'X1': ['P', 'Q'], 'X3': ['S']})}
+
+
+def map_x1(i):
+    lines = ['[ molecule ]', 'X1', '[ from ]', 'fa', '[ to ]', 'fb fc', '[ martini ]', 'P Q', '[ atoms ]',
+             '1 A P', '2 B P P Q ; twice P', '3 C !Q', '4 D Q', '[ chiral ]', 'A B C', '[ out ]', 'D A B']
+    weights = {'A': {'P': 1.0}, 'B': {'P': 2 / 3, 'Q': 1 / 3}, 'C': {'Q': 0}, 'D': {'Q': 1.0}}
+    return lines, [('fa', 'fb', 'X1', weights), ('fa', 'fc', 'X1', weights)]
+
+
+def map_x2(i):
+    lines = ['[ molecule ]', 'X2', '[ from ]', 'fa', '[ to ]', 'fb', '[ atoms ]', '1 E R', '2 F R R !R'.replace(' !R', ''), ]
+    return lines, [('fa', 'fb', 'X2', {'E': {'R': 1.0}, 'F': {'R': 1.0}})]
+
+
+def map_x3(i):
+    lines = ['[ molecule ]', 'X3', '[ from ]', 'fa', '[ to ]', 'fb', '[ to ]', 'fc', '[ atoms ]', '1 G S']
+    return lines, [('fa', 'fb', 'X3', {'G': {'S': 1.0}}), ('fa', 'fc', 'X3', {'G': {'S': 1.0}})]
+
+
+MAP_CHUNKS = {'x1': map_x1, 'x2': map_x2, 'x3': map_x3}
+
+
+def check_map(seq, acc, sample=False):
+    from vermouth.map_input import read_backmapping_file
+    if len(set(seq)) != len(seq):
+        return     # the same molecule twice between the same force fields: which one wins is not documented
+    lines, declared = ['; backward style'], {}
+    for i, kind in enumerate(seq):
+        chunk, decl = MAP_CHUNKS[kind](i)
+        lines.extend(chunk)
+        for ff_from, ff_to, name, weights in decl:
+            declared[(ff_from, ff_to, name)] = weights
+    case = {'layer': 'map', 'chunks': list(seq)}
+    try:
+        loaded = read_backmapping_file(lines, map_forcefields())
+    except Exception as err:   # pylint: disable=broad-except
+        acc.case(outcome='err')
+        acc.violation('map:wellformed-rejected', 'well-formed .map rejected: %r' % (err,), case)
+        return
+    got = {}
+    for ff_from, inner in loaded.items():
+        for ff_to, names in inner.items():
+            for name, mapping in names.items():
+                got[(ff_from, ff_to, name)] = {a: dict(b) for a, b in mapping.mapping.items()}
+    acc.case(nontrivial=len(seq) >= 2, outcome=('map', sorted(map(str, got))), sample=dict(case, file=lines) if sample else None)
+    if sorted(got) != sorted(declared):
+        acc.violation('map:members', 'mappings loaded %r, declared %r' % (sorted(got), sorted(declared)), case)
+        return
+    for key, weights in declared.items():
+        for atom, targets in weights.items():
+            for bead, weight in targets.items():
+                have = got[key].get(atom, {}).get(bead)
+                if have is None or abs(have - weight) > 1e-12:
+                    acc.violation('map:weights', '%r: weight of %s -> %s is %r, the file declares %r' % (key, atom, bead, have, weight), case)
+                    return
+        if {a: set(t) for a, t in got[key].items()} != {a: set(t) for a, t in weights.items()}:
+            acc.violation('map:atoms', '%r: atoms/beads loaded %r, declared %r' % (key, got[key], weights), case)
+            return
+
+
+# ----------------------------------------------------------------------------- plumbing
+
 def work_items(kind, items, acc):
-    pass
+    for n, seq in enumerate(items):
+        if kind == 'itp':
+            check_itp(seq, acc, sample=(n % 17 == 0))
+        elif kind == 'itp-fault':
+            check_itp_faults(seq, acc)
+        elif kind == 'map':
+            check_map(seq, acc, sample=(n % 7 == 0))
+
+
+def run_layers(ctx):
+    max_len = 3 if ctx.quick else 4
+    seqs = [s for n in range(1, max_len + 1) for s in itertools.product(ITP_CHUNKS, repeat=n)]
+    acc = Acc()
+    for part in common.pmap(c13.work, [('itp', chunk) for chunk in common.chunked(seqs, 8)]):
+        acc += part
+    ctx.layer('itp-sequences', acc)
+    fseqs = [s for n in range(1, (2 if ctx.quick else 3) + 1) for s in itertools.product(ITP_CHUNKS, repeat=n)]
+    acc = Acc()
+    for part in common.pmap(c13.work, [('itp-fault', [s]) for s in fseqs]):
+        acc += part
+    ctx.layer('itp-faults', acc)
+    mseqs = [s for n in range(1, 4) for s in itertools.permutations(MAP_CHUNKS, n)]
+    acc = Acc()
+    for part in common.pmap(c13.work, [('map', mseqs)]):
+        acc += part
+    ctx.layer('map-files', acc)
+
+
 def replay(case):
-    return []
+    acc = Acc()
+    layer = case['layer']
+    seq = tuple(case['chunks'])
+    if layer == 'itp':
+        check_itp(seq, acc)
+    elif layer == 'map':
+        check_map(seq, acc)
+    elif layer == 'itp-fault':
+        lines, _ = itp_file(seq)
+        for kind, idx, mutated in itp_faults(lines):
+            if kind == case['fault'] and idx == case['line']:
+                try:
+                    load_itp(mutated)
+                    acc.violation('itp-fault-accepted:%s' % kind, 'malformed itp loaded: %s at line %d' % (kind, idx + 1), case)
+                except Exception:   # pylint: disable=broad-except
+                    pass
+    return [(s, d) for s, d, _ in acc.violations]
